@@ -38,6 +38,9 @@ ASSUMPTIONS = [
     "engine and runner share one thread here (the engine ticks as a task of the loop); thread-level races between the "
     "engine thread and the loop are not explored",
     "the engine is started by first_steady_state_callback as in production, so nothing is produced in state Started",
+    "engine_runner.random is bound to a seeded Random (reconnect back-off 0.5..MAX s); the quick tier sets "
+    "engine_runner.MAX_RECONNECT_WAIT_SECONDS = 4 to shorten outages, the thorough tier keeps the shipped 10",
+    "mechanism classifiers read harness-side facts only (production route, runner state at send, alive task names)",
 ]
 REQUIRED = {"runs": 500, "runs_with_failure": 300, "reconnected_transitions": 300, "buffered_at_reconnected_checked": 2000,
             "resent_messages": 1000, "stop_order_checks": 100, "seq_checks": 20000, "end_conservation_checks": 300}
@@ -47,6 +50,7 @@ KNOWN_DIRECT = "C27.direct_send_during_catchup_overtakes_buffer"
 KNOWN_REBUF = "C27.failed_inflight_message_rebuffered_behind_later_message"
 KNOWN_ORPHAN = "C27.orphaned_buffer_task_buffers_in_steady_state"
 KNOWN_SNAPSHOT = "C27.snapshot_post_cancelled_inflight"
+KNOWN_BLOCKED = "C27.set_state_raises_when_state_task_awaits_itself"
 
 
 # ----------------------------------------------------------------------------------------------------------------
@@ -128,6 +132,7 @@ def check_trace(case, out, res: Result):
     prod_state: dict = {}
     prod_via: dict = {}
     replied: set = set()
+    reply_idx: dict = {}
     bufs: dict = {}
     sends: dict = {}
     posts: dict = {}
@@ -152,6 +157,7 @@ def check_trace(case, out, res: Result):
             order_sig.append(("s", info[e[1]][0], e[3]))
         elif k == "reply":
             replied.add(e[1])
+            reply_idx.setdefault(e[1], i)
             order_sig.append(("r", info[e[1]][0], e[2]))
         elif k == "state":
             order_sig.append(("st", e[2]))
@@ -225,7 +231,11 @@ def check_trace(case, out, res: Result):
                 continue
             # overtaken
             failed_m = [x[0] for x in sends.get(mid, []) if not x[2] and x[0] < e_s]
-            if st_at_send == "CatchingUp" and not stop_bufs:
+            if prod_via.get(mid) == ("buffer", True) and prod_state[mid] in ("Connected", "Reconnected") and not sends.get(mid):
+                mech = KNOWN_ORPHAN
+                how = ("the data message was put into the buffer in a steady state by a leftover buffer_messages task and "
+                       "stays stranded there while RunStoppedMsg is sent directly")
+            elif st_at_send == "CatchingUp" and not stop_bufs:
                 mech = KNOWN_DIRECT
                 how = "RunStoppedMsg was posted while the runner was CatchingUp and sent directly"
             elif stop_bufs and any(i_m < b_s < min([b for b in mb if b > i_m], default=-1)
@@ -243,6 +253,18 @@ def check_trace(case, out, res: Result):
             break
         if checked:
             res.count("stop_order_checks")
+    def _self_cancel_evidence(mid):
+        """a tag snapshot (posted from inside the steady-state task) failed on the same connection and its failure
+        reply was processed before this message's failure reply"""
+        conn = sends[mid][0][3]
+        for sid2, (t2, r2) in info.items():
+            if t2 == "TagsUpdatedMsg" and r2 is None and prod_via.get(sid2, ("", 0))[0] == "post" \
+                    and prod_state.get(sid2) in ("Connected", "Reconnected") and sid2 in reply_idx:
+                a = sends.get(sid2, [])
+                if a and not a[0][2] and a[0][3] == conn and reply_idx[sid2] < reply_idx[mid]:
+                    return True
+        return False
+
     # ---- C5: conservation at the end
     res.count("end_conservation_checks")
     steady_end = out.get("final_state") in ("Connected", "Reconnected") and out.get("end_state") == out.get("final_state")
@@ -268,6 +290,11 @@ def check_trace(case, out, res: Result):
             # the tag snapshot is posted un-shielded from the steady-state task: the task was cancelled (another send
             # failed first) while it awaited this message's reply, so the failure was never seen and nothing re-buffered it
             mech = KNOWN_SNAPSHOT
+        elif len(ss) == 1 and not ss[0][2] and mid in replied and mid not in bufs and _self_cancel_evidence(mid):
+            # the failure reply was seen, but _post_async never got to _buffer_message: its `await _set_state("Failed")`
+            # raised RuntimeError("await wasn't used with future") because it awaited the steady-state task while that
+            # task was cancelling and awaiting ITSELF (its own un-shielded snapshot post had failed just before)
+            mech = KNOWN_BLOCKED
         elif mid in endbuf and prod_via.get(mid) == ("buffer", True) and prod_state[mid] in ("Connected", "Reconnected"):
             # put into the buffer, in a steady state, by a buffer_messages task that should no longer exist
             mech = KNOWN_ORPHAN
@@ -278,6 +305,14 @@ def check_trace(case, out, res: Result):
         viol.append((mech, f"{name(mid)} produced in runner state {prod_state[mid]} was never delivered "
                            f"(attempts {[(x[2], x[4]) for x in ss]}, in buffer at end={mid in endbuf}); {desc}"))
         break
+    # ---- the runner's own tick task must survive (otherwise nothing is ever delivered "after reconnection")
+    if out.get("timer_dead"):
+        res.count("runner_tick_task_died")
+        mech = KNOWN_BLOCKED if "await wasn't used with future" in out["timer_dead"] else None
+        viol.append((mech, f"EngineRunner's AsyncTimer task died with {out['timer_dead']} (raised inside _tick -> _set_state): "
+                           f"the runner stays in state {out.get('final_state')} forever; {desc}"))
+    if out.get("shutdown_exc"):
+        res.count("shutdown_raised")
     # counters describing the scenario
     cons = out.get("consumed", [])
     nontrivial = any(x.endswith("-") for x in cons)
